@@ -391,6 +391,9 @@ func isLoadOfField(v ssa.Value, f *types.Var) bool {
 }
 
 func lenOperand(v ssa.Value) (ssa.Value, bool) {
+	if sy, isSy := v.(*synthLen); isSy {
+		return sy.arg, true
+	}
 	c, ok := strip(v).(*ssa.Call)
 	if !ok {
 		return nil, false
